@@ -405,6 +405,7 @@ class Gen:
     def __init__(self, rng, tier):
         self.rng = rng
         self.tier = tier
+        self.macro_hits = 0
 
     def distance(self, rng, classes, tab):
         c = rng.random()
@@ -456,6 +457,103 @@ class Gen:
         self.w_remove = rng.choice([0.0, 0.02, 0.05, 0.12])
         return own, classes, n_addr, ports, n_ops, p_dead, p_replied, start
 
+    def stale_kth_macro(self, impl, ops, own):
+        """A full bucket that may not split freely (index >= 1) and more than K contacts known: (1) a newcomer
+        FARTHER than the K-th closest known contact is offered to that bucket with every probe answered (rejected;
+        this is when the table looks at its K-th closest contact), (2) one of the K closest contacts goes away --
+        by remove_peer or by the same-address eviction of the next add -- with no successful add in between,
+        (3) a newcomer CLOSER than the new K-th closest but farther than the old one is offered to the same full
+        bucket, every probe answered.  It has to be admitted.  Returns True when the operations were appended."""
+        rng = self.rng
+        tab = impl.table()
+        srt = sorted(impl.contacts(), key=lambda q: q[0] ^ own)
+        if len(srt) < K + 1:
+            return False
+        d_old, d_next = srt[K - 1][0] ^ own, srt[K][0] ^ own
+        cands = []
+        for i, b in enumerate(tab):
+            if i >= 1 and len(b['peers']) >= K:
+                lo2, hi2 = max(b['lo'], d_old + 1), min(b['hi'], d_next)     # closer than the new K-th, farther than the old
+                inb = {q[0] for q in b['peers']}
+                victims = [q for q in srt[:K] if q[0] not in inb]
+                if lo2 < hi2 and victims and d_old + 1 < b['hi']:
+                    cands.append((b, lo2, hi2, victims))
+        if not cands:
+            return False
+        b, lo2, hi2, victims = rng.choice(cands)
+        base = BASE_IP + 20000 + len(ops)
+        # (1) the far newcomer that is turned away
+        d1 = rng.randrange(max(b['lo'], d_next + 1), b['hi']) if max(b['lo'], d_next + 1) < b['hi'] else None
+        if d1 is not None and all((q[0] ^ own) != d1 for q in srt):
+            o = ['add', hx(d1 ^ own), base, 4444, [], 0]
+            ops.append(o)
+            impl.add(impl.mk(int(o[1], 16), o[2], o[3]), set())
+            if sorted(impl.contacts(), key=lambda q: q[0] ^ own) != srt:
+                return True                        # it was admitted after all (a split was possible): nothing to aim at
+        # (2) one of the K closest goes away
+        v = rng.choice(victims)
+        evict = rng.random() < 0.4
+        if not evict:
+            o = ['remove', hx(v[0]), v[1], v[2]]
+            ops.append(o)
+            impl.remove(impl.mk(v[0], v[1], v[2]))
+        # (3) the newcomer closer than the (new) K-th closest known contact, everybody answers the probe
+        d2 = rng.choice([lo2, hi2 - 1, rng.randrange(lo2, hi2)])
+        o = ['add', hx(d2 ^ own), v[1] if evict else base + 1, v[2] if evict else 4444, [], 0]
+        ops.append(o)
+        impl.add(impl.mk(int(o[1], 16), o[2], o[3]), set())
+        return True
+
+    def stale_kth_case(self):
+        """the same scenario built from scratch (deterministic shape, random parameters): K far contacts filling the
+        farthest bucket, K (or a few more) contacts close to the own id, then the three steps of stale_kth_macro"""
+        rng = self.rng
+        own = rng.choice(SPECIAL_OWN) if rng.random() < 0.2 else rng.getrandbits(BITS)
+        a = rng.randrange(8, 382)                              # the close cluster lives just above distance 2^a
+        half, quarter = 1 << 383, 1 << 382
+        ops = []
+        start = rng.choice([0, 0, 1000])
+        if start:
+            ops.append(['t', start])
+        n = [0]
+
+        def add(d, addr=None, port=4444):
+            n[0] += 1
+            ops.append(['add', hx(d ^ own), addr if addr is not None else BASE_IP + 30000 + n[0], port, [], 0])
+            return [d ^ own, ops[-1][2], port]
+        far_d = rng.sample(range(1, 5000), K)
+        close_d = rng.sample(range(1, 1 << min(a, 12)), K + rng.choice([0, 0, 1, 3]))
+        far = [half + quarter + x for x in far_d]
+        close = [(1 << a) + x for x in close_d]
+        order = [(d, 'f') for d in far] + [(d, 'c') for d in close]
+        if rng.random() < 0.5:
+            rng.shuffle(order)
+        placed = {}
+        for d, kind in order:
+            placed[d] = add(d)
+        if rng.random() < 0.5:
+            for d in far:
+                ops.append(['replied', placed[d][1], 4444])
+            ops.append(['t', rng.choice([0, 1, 61, 700])])
+        # (1) a far newcomer, farther than the K-th closest: turned away, everybody answers
+        add(half + quarter + rng.randrange(5000, 1 << 40))
+        if rng.random() < 0.3:
+            ops.append(['find', hx(own), None, None])
+        # (2) one of the K closest goes away (remove_peer, or the same-address eviction of step 3)
+        victim = placed[sorted(close)[rng.randrange(K)]]
+        evict = rng.random() < 0.4
+        if not evict:
+            ops.append(['remove', hx(victim[0]), victim[1], victim[2]])
+        # (3) closer than the new K-th closest known contact (a far one when exactly K were close), in the full bucket
+        d3 = half + rng.randrange(1, quarter) if rng.random() < 0.7 else half + rng.choice([0, 1, quarter - 1])
+        if evict:
+            add(d3, victim[1], victim[2])
+        else:
+            add(d3)
+        ops.append(['find', hx(own), K, None])
+        ops.append(['get', hx(d3 ^ own)])
+        return {'own': hx(own), 'ops': ops}
+
     def history(self, model):
         """generate while executing on the implementation only (the model is run afterwards by execute)"""
         rng = self.rng
@@ -476,7 +574,10 @@ class Gen:
                     o = ['remove', hx(q[0]), q[1], q[2]]
                 elif c < 0.07:
                     o = ['t', rng.choice(DTS)]
-                elif c < 0.10 and tab:
+                elif c < 0.13 and len(tab) > 1 and self.stale_kth_macro(impl, ops, own):
+                    self.macro_hits += 1
+                    continue
+                elif c < 0.16 and tab:
                     # every contact of one bucket (full ones preferred) has just replied: the 'all fresh' branch
                     full = [b for b in tab if len(b['peers']) >= K] or tab
                     bk = rng.choice(full)
@@ -617,7 +718,8 @@ def check_case(run, model, case, kind_label):
     if o.kind and len(run.violations) + len(run.disagreements) >= 3:
         # enough shrunk reproducers already; record the rest unshrunk
         if o.kind == 'violation':
-            run.violation(case, o.what, signature={'own': case['own'], 'ops': case['ops'][:o.at + 1]})
+            cut = {'own': case['own'], 'ops': case['ops'][:o.at + 1]}
+            run.violation(cut, o.what, signature=cut)
         else:
             run.disagreement(o.what, dict(case, at=o.at), o.impl, o.model)
         return o
@@ -672,7 +774,9 @@ def main(run):
                 'node id, removals (present, absent, whole middle bucket emptied), malformed contacts, peer-manager '
                 'events (replied/failure/requested) and clock steps around 60 s and 720 s, probe outcomes chosen per '
                 'contact (timeout or RemoteException), find_close_peers with keys near contacts/own id/bucket edges and '
-                'counts None,0,1..1000,negative, get_peer. distinct = distinct history; non-trivial = the table split at '
+                'counts None,0,1..1000,negative, get_peer; plus the macro "far newcomer turned away by a full bucket, then one of '
+                'the K closest contacts removed or evicted, then a newcomer closer than the new K-th closest" inside random '
+                'histories and as histories built from scratch. distinct = distinct history; non-trivial = the table split at '
                 'least once or admitted a contact.')
     for name, case in load_corpus():
         check_case(run, model, case, 'corpus')
@@ -685,6 +789,10 @@ def main(run):
     for _ in range(n_cases):
         case = gen.history(model)
         check_case(run, model, case, 'generated')
+    # the K-th-closest scenario built from scratch: rejected far add, one of the K closest leaves, closer newcomer
+    for _ in range(vlib.scaled(run.tier, 24, 600)):
+        check_case(run, model, gen.stale_kth_case(), 'kth-after-removal')
+    run.count('macro:kth-after-removal-in-random-history', gen.macro_hits)
     # bootstrap-node tables (capacity 2^32 in the first bucket) are outside the model: monitor only
     for _ in range(vlib.scaled(run.tier, 12, 300)):
         case = gen.history(model)
